@@ -1,0 +1,61 @@
+//go:build verif
+
+package gohlslib
+
+// Contracts for the contract-based deductive verification in /verif (engine: gvc).
+// Comment-only: with the tag off this file is not compiled, with it on it adds no code.
+
+//@ func multiplyAndDivide
+//@   props C03 C09 C10 C19
+//@   requires d > 0 && m >= 0
+//@   ensures result == (v*m)/d
+//@ end
+
+//@ func multiplyAndDivide2
+//@   props C03 C09 C10 C19
+//@   requires d > 0 && m >= 0
+//@   ensures result == (v*m)/d
+//@ end
+
+//@ func partDurationIsCompatible
+//@   props C19
+//@   requires sampleDuration > 0 && partDuration >= 0
+//@   ensures result ==> sampleDuration <= partDuration
+//@   ensures result ==> forall(f, (f >= partDuration && f < partDuration + sampleDuration && mod(f, sampleDuration) == 0) ==> 100*partDuration > 85*f)
+//@ end
+
+// ---------------------------------------------------------------------------------------
+// muxerStream: shared predicates
+
+//@ pred isF(x muxerSegment) := is(x, *muxerSegmentFMP4)
+//@ pred asF(x muxerSegment) *muxerSegmentFMP4 := x.(*muxerSegmentFMP4)
+
+// Low-Latency window shape: gaps only at the head, fMP4 segments with consecutive ids ending at
+// nextSegmentID-1, each with at least one part; the open segment is an fMP4 segment.
+//@ pred wfLL(s *muxerStream) := s.nextSegment != nil && isF(s.nextSegment)
+//@   && s.nextSegmentID >= len(s.segments) && s.nextSegmentID < 9000000000000000000
+//@   && forall(i, (0 <= i && i < len(s.segments)) ==> (isF(s.segments[i]) || is(s.segments[i], *muxerGap)))
+//@   && forall(i, (0 <= i && i < len(s.segments) && isF(s.segments[i])) ==>
+//@        (asF(s.segments[i]).id == s.nextSegmentID - len(s.segments) + i && len(asF(s.segments[i]).parts) >= 1))
+//@   && forall(i, (0 <= i && i+1 < len(s.segments) && isF(s.segments[i])) ==> isF(s.segments[i+1]))
+
+// The property's reading of "part P of segment M is published", with a part index past the end of
+// a complete segment counting as part 0 of the following segment.
+//@ pred partPublished(s *muxerStream, M uint64, P uint64) :=
+//@   (M == s.nextSegmentID && P < len(asF(s.nextSegment).parts))
+//@   || exists(i, 0 <= i && i < len(s.segments) && isF(s.segments[i]) && asF(s.segments[i]).id == M
+//@        && (P < len(asF(s.segments[i]).parts) || i+1 < len(s.segments) || len(asF(s.nextSegment).parts) >= 1))
+
+//@ func muxerStream.hasPart
+//@   props C06
+//@   requires wfLL(s)
+//@   ensures result == partPublished(s, segmentID, partID)
+//@   loop 1 invariant -1 <= ri && ri < len(s.segments)
+//@   loop 1 invariant (segmentID == old(segmentID) && partID == old(partID)
+//@        && forall(k, (0 <= k && k <= ri) ==> !(isF(s.segments[k]) && asF(s.segments[k]).id == old(segmentID))))
+//@     || (ri >= 0 && segmentID == old(segmentID) + 1 && partID == 0 && isF(s.segments[ri])
+//@        && asF(s.segments[ri]).id == old(segmentID) && old(partID) >= len(asF(s.segments[ri]).parts))
+//@   witness s.nextSegmentID
+//@   witness len(s.segments)
+//@   witness len(asF(s.nextSegment).parts)
+//@ end
